@@ -31,11 +31,11 @@ PROPERTY_ID = 'C13'
 NEEDS_TF = False
 LEVEL = 'exploration'
 RULE = ('Hypothesis draws a federated dataset (2-12 clients, up to 40 in '
-        'get_within_round; byte ids over the alphabet {00,01,3a,61,62,ff} with '
+        'get_within_round; thorough: 20 / 80; byte ids over the alphabet {00,01,3a,61,62,ff} with '
         '0-2 appended zero bytes, so trailing-zero and prefix-related ids are '
         'common; 0-3 examples per client; in-memory or SQLite-backed), a numpy '
         'seed in [0,2^32), a cohort in [1,#clients] and (get_history) a list of '
-        '1-10 operation groups: sample | set_round_num(r)+sample with r drawn '
+        '1-10 (thorough: 1-24) operation groups: sample | set_round_num(r)+sample with r drawn '
         'as back-jump, repeat of an already sampled round, forward jump, same '
         'round or arbitrary (small, <=1000, or near 2^31 / 2^32). The model is '
         'a memo table round -> sample of a fresh sampler on a freshly opened '
@@ -148,11 +148,6 @@ def freeze(sample):
   for cid, ds, key in sample:
     out.append((cid, ds.all_examples(), key_bits(key)))
   return out
-
-
-def show(frozen):
-  return [(cid, ex.get('x', np.zeros(0)).tolist() if isinstance(ex, dict) else ex,
-           kb[2].hex()) for cid, ex, kb in frozen]
 
 
 def require_same(got, want, clause, what):
@@ -443,7 +438,8 @@ def history_strategy(draw, tier):
   clients = draw(clients_strategy(12 if tier == 'quick' else 20))
   n = len(clients)
   start = draw(st.one_of(st.just(0), st.just(0), round_strategy()))
-  groups = draw(st.integers(1, 10 if tier == 'quick' else 24))
+  gmax = 10 if tier == 'quick' else 24
+  groups = draw(st.one_of(st.integers(1, gmax), st.integers(4, gmax)))
   ops, cur, sampled = [], start, []
   kinds = ['sample', 'sample', 'sample', 'back', 'repeat', 'repeat', 'fwd',
            'same', 'any', 'double']
@@ -509,21 +505,21 @@ def shuffled_strategy(draw, tier):
 CHECKS = [
     Check(name='get_history', run=run_history, strategy=history_strategy,
           labels=history_labels, nontrivial=history_nontrivial,
-          budget={'quick': 12000, 'thorough': 160000}, time_share=2.0,
+          budget={'quick': 6000, 'thorough': 120000}, time_share=2.0,
           doc='UniformGetClientSampler: every sample() of one sampler driven '
               'through a generated history of sample / set_round_num equals '
               'the sample of a fresh sampler seated at that round (ids, '
               'dataset contents, keys bit-equal) and advances the round by one'),
     Check(name='get_within_round', run=run_within, strategy=within_strategy,
           labels=within_labels, nontrivial=within_nontrivial,
-          budget={'quick': 6000, 'thorough': 80000}, time_share=1.0,
+          budget={'quick': 3000, 'thorough': 60000}, time_share=1.0,
           doc='UniformGetClientSampler: a round returns cohort many pairwise '
               'different clients of the dataset with byte-exact ids and their '
               'own examples, pairwise distinct keys, and keys of different '
               'rounds are disjoint'),
     Check(name='shuffled_restart', run=run_shuffled, strategy=shuffled_strategy,
           labels=shuffled_labels, nontrivial=shuffled_nontrivial,
-          budget={'quick': 6000, 'thorough': 80000}, time_share=1.0,
+          budget={'quick': 3000, 'thorough': 60000}, time_share=1.0,
           doc='UniformShuffledClientSampler(start_round_num=r) over a re-seeded '
               'shuffled_clients stream reproduces rounds r, r+1, ... of a '
               'sampler started at round 0'),
